@@ -102,7 +102,7 @@ def check(ctx: Ctx) -> str:
     for cname, tail in (("Undefined", "fail"), ("ChainableUndefined", "self")):
         fi = repo.func(f"runtime:{cname}.__getattr__")
         rs = astq.raises(fi.node)
-        ok = any(astq.raise_type(r) == "AttributeError" and any("name[:2] == '__'" in g and pol for g, pol in astq.guard_texts(fi.node, r)) for r in rs)
+        ok = any(astq.raise_type(r) == "AttributeError" and any("name[:2] == '__'" in g and pol for g, pol in astq.guard_texts(fi.nnode, r)) for r in astq.raises(fi.nnode))
         ctx.check(ok, f"{cname}.__getattr__:dunder", f"runtime:{cname}.__getattr__", "dunder probe", f"{cname}.__getattr__ no longer raises AttributeError for dunder names (copy/pickle/protocol probing break)", fi.loc())
         last = astq.returns(fi.node)[-1]
         want = "self._fail_with_undefined_error()" if tail == "fail" else "self"
@@ -144,7 +144,7 @@ def check(ctx: Ctx) -> str:
         r = astq.returns(fi.node)
         ctx.check(len(r) == 1 and ast.unparse(r[0].value) == want, spec, spec, "classification", f"{spec} returns `{ast.unparse(r[0].value) if r else ''}`, documented `{want}`", fi.loc())
     dd = repo.func("filters:do_default")
-    ifs = [n_ for n_ in ast.walk(dd.node) if isinstance(n_, ast.If)]
+    ifs = [n_ for n_ in ast.walk(dd.nnode) if isinstance(n_, ast.If)]
     ok = len(ifs) == 1 and ast.unparse(ifs[0].test) in ("isinstance(value, Undefined) or (boolean and (not value))", "isinstance(value, Undefined) or boolean and (not value)")
     ctx.check(ok, "filters:do_default", "filters:do_default", "default condition", f"do_default tests `{ast.unparse(ifs[0].test) if ifs else ''}`", dd.loc(), detail={"test": ast.unparse(ifs[0].test) if ifs else ""})
     tab = repo.const_map("tests:TESTS")
